@@ -81,6 +81,10 @@ func (c *Ctx) Op(line string, f func() string) string {
 	c.impl.WriteByte('\n')
 	c.impl.Flush()
 	c.nOps++
+	if out == "panic" && c.Prop == "C03" && !strings.HasPrefix(line, "c03.probe") {
+		// for C03 a panic in any compared operation is itself a failing input
+		c.Direct(false, "panic on peer-supplied bytes", map[string]any{"op": c.lastOp, "panic": firstLines(lastPanic, 10)})
+	}
 	if len(c.samples) < 12 && (c.nOps%97 == 1 || c.nOps < 4) {
 		s := line + "  =>  " + out
 		if len(s) > 400 {
